@@ -176,7 +176,9 @@ func (r *vfPairRun) baseArgs() *baseArgs {
 
 func (r *vfPairRun) clientProgress(config *transferConfig) progressCallback {
 	if config.Quiet {
-		return nil
+		// exactly what TrzszFilter hands over in quiet mode: its progress pointer, which is nil - an interface holding a nil
+		// *textProgressBar, whose methods are still called
+		return (*textProgressBar)(nil)
 	}
 	r.progressOut = &vfCapture{}
 	return newTextProgressBar(r.progressOut, 100, config.TmuxPaneColumns, "", "")
